@@ -75,7 +75,8 @@ pub fn pool(variant: u8) -> Vec<(&'static str, Vec<TlSpec>)> {
         ("to-only", vec![one(vec![kf(1.0, Some(400.0), Some(7), None, None)], e(0), t(1.0, 0.0, Rep::None, false))]),
         ("mid-keyframe-only", vec![one(vec![kf(0.5, Some(16.0), Some(64), None, Some(e(1)))], e(0), t(2.0, 0.0, Rep::None, false))]),
         ("delayed", vec![one(vec![kf(0.0, Some(200.0), None, None, None), kf(1.0, Some(-8.0), None, None, None)], e(2), t(1.0, 0.5, Rep::None, false))]),
-        ("times-1", vec![one(vec![kf(0.0, None, Some(1000), None, None), kf(1.0, None, Some(-31), None, None)], e(0), t(0.5, 0.0, Rep::Times(1), false))]),
+        // (the 0% keyframe carries its own easing: the blended first segment uses it, not the default easing)
+        ("times-1", vec![one(vec![kf(0.0, None, Some(1000), None, Some(e(1))), kf(1.0, None, Some(-31), None, None)], e(0), t(0.5, 0.0, Rep::Times(1), false))]),
         ("reversing", vec![one(vec![kf(0.0, Some(-64.0), None, None, None), kf(0.5, Some(96.0), None, None, Some(e(2))), kf(1.0, Some(16.0), None, None, None)], e(0), t(1.0, 0.0, Rep::None, true))]),
         ("infinite", vec![one(vec![kf(0.0, Some(0.0), Some(0), None, None), kf(1.0, Some(128.0), Some(100), None, None)], e(0), t(1.0, 0.0, Rep::Infinite, false))]),
         ("infinite-reversing-delayed", vec![one(vec![kf(0.25, Some(32.0), None, None, Some(e(1))), kf(1.0, Some(-32.0), None, None, None)], e(0), t(1.0, 0.25, Rep::Infinite, true))]),
@@ -488,7 +489,47 @@ fn zero_advance_before_first_evaluation(cfg: &Config, init: S4, h: &[Op]) -> boo
 
 /// Normal form of a history: consecutive advances merged (exact: all steps are whole numbers of
 /// nanoseconds and dyadic), zero advances and same-state set_state dropped.
+/// Detours removed: from an animated state X or Y into the un-animated U1 and straight back (only advances in
+/// between). The interrupted animation is frozen meanwhile and resumes where it was, so the time spent in X / Y and
+/// therefore the values at the end are the same as if the detour had not happened.
+fn without_detours(init: S4, h: &[Op]) -> Vec<Op> {
+    let mut out: Vec<Op> = vec![];
+    let mut cur = init;
+    let mut i = 0;
+    while i < h.len() {
+        if let Op::Set(S4::U1) = h[i] {
+            if cur == S4::X || cur == S4::Y {
+                let mut j = i + 1;
+                while j < h.len() && matches!(h[j], Op::Adv(_) | Op::Set(S4::U1)) {
+                    j += 1;
+                }
+                if j < h.len() && h[j] == Op::Set(cur) {
+                    i = j + 1;
+                    continue;
+                }
+            }
+        }
+        if let Op::Set(s) = h[i] {
+            cur = s;
+        }
+        out.push(h[i]);
+        i += 1;
+    }
+    out
+}
+
 fn normal_form(init: S4, h: &[Op]) -> Vec<Op> {
+    normal_form_of(init, h, false)
+}
+
+fn normal_form_of(init: S4, h: &[Op], detours: bool) -> Vec<Op> {
+    let reduced;
+    let h = if detours {
+        reduced = without_detours(init, h);
+        &reduced[..]
+    } else {
+        h
+    };
     let mut out: Vec<Op> = vec![];
     let mut cur = init;
     let mut pending = Duration::ZERO;
@@ -647,7 +688,9 @@ pub fn check_history(cfg: &Config, init: S4, h: &[Op], prop: Prop, rank: u64, ac
         // therefore not a no-op. Histories with such an advance are outside C06's clauses.
         Prop::C06 if zero_advance_before_first_evaluation(cfg, init, h) => {}
         Prop::C06 => {
-            let nf = normal_form(init, h);
+            // (detours are not removed where the initial timeline has not been evaluated yet: the resume would be
+            // its first evaluation)
+            let nf = normal_form_of(init, h, !(init == S4::X && cfg.names[0] == "negative-delay"));
             if nf.len() != h.len() {
                 acc.checks += 1;
                 acc.nontrivial += 1;
@@ -870,8 +913,26 @@ fn c07_over_on_entry(acc: &mut Acc) {
                     apply(&mut a, op);
                 }
                 h.push(Op::Set(S4::Y));
-                a.set_state(&S4::Y);
                 acc.histories += 1;
+                // (a panic anywhere in such a history is reported as a violation, not as a crash of the check)
+                let survived = std::panic::catch_unwind(std::panic::AssertUnwindSafe(|| {
+                    let mut b = StateAnimatorBuilder::<S4, PTimeline>::new().from_state(S4::X).from_values(initial_values()).on(S4::X, x.builder()).on(S4::Y, y.builder()).build();
+                    for op in pr.iter() {
+                        apply(&mut b, op);
+                    }
+                    b.set_state(&S4::Y);
+                    for op in po.iter() {
+                        apply(&mut b, op);
+                    }
+                }))
+                .is_ok();
+                if !survived {
+                    acc.sink.add("over-on-entry:panic", (1u64 << 52) | (ti as u64) << 16 | (pi as u64) << 8 | (qi as u64) << 4, || {
+                        (format!("Y = cycle {} s, delay {} s, {:?}, reverse {} (total duration <= 0): entering Y after [{}] (or one of the following operations) panicked", tm.cycle, tm.delay, tm.rep, tm.reverse, hname(&h)), json!({"companion": "over-on-entry", "Y": y.to_json(), "X": x.to_json(), "history": h.iter().map(|o| o.to_json()).collect::<Vec<_>>()}))
+                    });
+                    continue;
+                }
+                a.set_state(&S4::Y);
                 for step in 0..=po.len() {
                     if step > 0 {
                         apply(&mut a, &po[step - 1]);
@@ -1684,7 +1745,7 @@ pub fn run(run: Run, prop: Prop) -> ! {
     cov.insert("rule".into(), json!(format!("{} animator configurations (X and Y timelines from a pool of 23 shapes: finite, to-only, mid-keyframe-only, delayed, Times 1, reversing, infinite, infinite-reversing-delayed, merged disjoint finite+infinite, merged overlapping, partial, empty merged list, infinite with delay = cycle, delayed Times 2, merged endless + delayed Times 1 reversing with one cycle length, merged short Times 2 + long non-repeating, a property keyed only at 0%, 17 keyframes over 16 s, a 32768 s eased timeline, keyframe-less 2 s, merged finite + longer keyframe-less, two keyframes tied at 100%, negative delay (not in C04 runs); two un-animated states (in every 4th configuration - thorough: an extra copy of every configuration - U2 is a third animated state, so A -> B -> C -> A histories occur); Linear/polynomial or built-in Bezier easings; non-default initial values; initial state X or U1) x ALL histories of length 1..={} over the alphabet [{}] (a state is the history: the real animator is rebuilt and replayed; clauses are evaluated on the last operation of each history, so every operation of every history is checked once) + deviation-bounded pass: default advance(1/4), all histories of length <= {} with <= {} deviations + de-duplicating breadth-first pass keyed on the complete mutable state (counts under bfs_pass; a capped level is reported, everything below the cap depth is complete). {}", cfgs.len(), depth, ops.iter().map(|o| o.name()).collect::<Vec<_>>().join(", "), dev_len, dev_k, match prop {
         Prop::C04 => "Oracle: current_values bit-identical before/after every set_state; same-state set_state leaves time, pause record and is_ended unchanged. non-trivial = set_state calls that change the state",
         Prop::C05 => "Oracle: RefAnimator stepped alongside (current_state, time in state via hook, live pause record via hook, values = state's merged timeline started from the values observed at entry, evaluated at the time in state; un-animated fields bit-identical). non-trivial = operations after which the current state animates at least one property",
-        Prop::C06 => "Companion: every sequence of 2..5 non-representable steps (0.1,0.2,0.3,1/3,0.7) vs one advance of their f32 sum, values within float rounding (1e-3 of the value scale; sequences ending within 2e-5 s of a reference discontinuity skipped). Oracle: the history and its normal form (consecutive advances merged, zero advances and same-state changes dropped) end with bit-identical values, state and is_ended; advance(0) is a no-op. non-trivial = histories that differ from their normal form",
+        Prop::C06 => "Companion: every sequence of 2..5 non-representable steps (0.1,0.2,0.3,1/3,0.7) vs one advance of their f32 sum, values within float rounding (1e-3 of the value scale; sequences ending within 2e-5 s of a reference discontinuity skipped). Oracle: the history and its normal form (consecutive advances merged, zero advances and same-state changes dropped, detours X|Y -> U1 -> back removed: the animation is frozen meanwhile) end with bit-identical values, state and is_ended; advance(0) is a no-op. non-trivial = histories that differ from their normal form",
         Prop::C07 => "Companion: 5 non-dyadic timelines (cycles 0.1/0.3/0.7/1.1, delays 0/0.1/0.3, a merged pair) x all step sequences of length <= 6 over {0.1,0.05,0.7,1.0,0.3}: is_ended <=> time in state >= the reported duration(), sticky, values bit-constant after the end. Oracle: is_ended <=> no timeline or time in state >= max over components of delay+cycle*(repeats+1), never with an infinite component; sticky; values bit-constant under advances after the end and equal to the reference terminal values. non-trivial = operations across which the reference end status flips",
     })));
     cov.insert("exhaustive".into(), json!(true));
